@@ -442,6 +442,7 @@ theorem apply_msg_cl (hc : LClosed P) {s s' : St} {o : Op} (h : P s) (e : apply 
   | update m => exact updateState_cl hc h e
   | fraud au ra hh rev p rw => exact fraud_cl hc h e
   | obsolete au vs => exact markObsolete_cl hc h e
+  | punish au a rw => exact punish_cl hc h (punishProposal_ok e).2
   | begin_ dt => cases hm
   | end_ f => cases hm
 
